@@ -334,3 +334,62 @@ Theorem C16_cq_example_rejected :
   C16_cq_run.spec_b (mkcq ts 0 cons db [] [] [CE 1 1 5 (Some 1%N)] [(2%N, [ASetErr 1 true; ACancel true])] [DB 1 1 5 true 0; DB 2 4 5 false 1] true) = false.
 Proof. exact cq_example_rejected. Qed.
 Print Assumptions C16_cq_example_rejected.
+
+(* ---------------------------------------------------------------------------------------------- *)
+(* runQueue behind the real queue: between two polls the cache follows the API server's answers to  *)
+(* the dispatcher's lock / unlock / cancel requests (state AND priority).  [told polled resps] is the *)
+(* snapshot as the server last told this dispatcher; the pass is judged against it (model/C16_tq.v). *)
+From AV Require Import model.C16_tq proofs.C16_tq.
+
+(* the answers change states and priorities only: same containers, same instance types *)
+Theorem C16_told_keeps_containers : forall polled resps,
+  map e_uuid (told polled resps) = map e_uuid polled /\ map e_it (told polled resps) = map e_it polled.
+Proof. intros polled resps. split; [exact (told_uuids polled resps)|exact (told_types polled resps)]. Qed.
+Print Assumptions C16_told_keeps_containers.
+
+(* the latest answer about a container wins: state and priority of the last response that mentions it *)
+Theorem C16_told_latest_wins : forall polled a r b,
+  (forall r', In r' b -> rs_uuid r' <> rs_uuid r) ->
+  forall e, In e (told polled (a ++ r :: b)) -> e_uuid e = rs_uuid r -> e_state e = rs_state r /\ e_prio e = rs_prio r.
+Proof. exact told_latest_wins. Qed.
+Print Assumptions C16_told_latest_wins.
+
+(* a container without an answer keeps what the poll said *)
+Theorem C16_told_no_resp : forall polled resps e,
+  (forall r, In r resps -> rs_uuid r <> e_uuid e) -> (In e (told polled resps) <-> In e polled).
+Proof. exact told_no_resp. Qed.
+Print Assumptions C16_told_no_resp.
+
+(* second half of the property with respect to the told priorities, for every pool behaviour, poll result,
+   sequence of answers and outcome of the unstable sort *)
+Theorem C16_told_run_queue_meets_spec :
+  forall (P : Type) (p_quota : P -> bool * P) (p_kill p_create : N -> P -> bool * P) (p_start : N -> N -> P -> bool * P)
+         (running : list N) (polled : list ent) (resps : list resp) (sorted : list ent) (u0 : umap) (p : P),
+  Permutation sorted (told polled resps) -> StronglySorted (fun a b => e_prio b <= e_prio a) sorted ->
+  NoDup (map e_uuid polled) ->
+  RqSpec (told polled resps) running
+         (r_log (run_queue_sorted P p_quota p_kill p_create p_start running sorted u0 p))
+         (r_locks (run_queue_sorted P p_quota p_kill p_create p_start running sorted u0 p)).
+Proof. exact told_run_queue_meets_spec. Qed.
+Print Assumptions C16_told_run_queue_meets_spec.
+
+(* the stage's boolean specification is the proved-equivalent rq_spec_b on the told snapshot *)
+Theorem C16_tq_spec_is_rq_spec : forall c,
+  C16_tq.spec_b c = rq_spec_b (told (t_polled c) (t_resps c)) (t_running c) (to_log c) (to_locks c).
+Proof. exact tq_spec_is_rq_spec. Qed.
+Print Assumptions C16_tq_spec_is_rq_spec.
+
+(* not vacuous: A (priority 1 at the poll, 3 in its lock response) goes before B (priority 2); a pass that
+   starts B and unlocks A at quota is rejected *)
+Theorem C16_tq_example :
+  let polled := [E 1 0 1 0; E 2 0 2 0] in
+  let resps := [RS 1 1 3; RS 2 1 2] in
+  told polled resps = [E 1 1 3 0; E 2 1 2 0] /\
+  C16_tq.spec_b (mktq polled resps [] [(0%N, 1)] (mkstub [false] [] [(0%N, [false])] [(0%N, 1)])
+               [EKill 1 false; EStart 0 1 true; ECreate 0 false] [] []) = true /\
+  C16_tq.model_b (mktq polled resps [] [(0%N, 1)] (mkstub [false] [] [(0%N, [false])] [(0%N, 1)])
+               [EKill 1 false; EStart 0 1 true; ECreate 0 false] [] []) = true /\
+  C16_tq.spec_b (mktq polled resps [] [(0%N, 1)] (mkstub [true] [] [] [(0%N, 1)])
+               [EKill 2 false; EStart 0 2 true; EUnlock 1] [] []) = false.
+Proof. exact tq_example. Qed.
+Print Assumptions C16_tq_example.
